@@ -16,6 +16,7 @@ import (
 	"sort"
 	"strconv"
 	"strings"
+	"sync/atomic"
 	"time"
 
 	lua "github.com/yuin/gopher-lua"
@@ -269,6 +270,26 @@ func failsKind(ex Executor, ops []Op, kind string) (bool, []string, int, string)
 }
 
 func safeExec(ex Executor, ops []Op) (lines []string) {
+	// a case during which a hang watchdog fired (in this or a concurrently running case) is executed again, up to twice:
+	// see watchdog.go noteHang
+	for attempt := 0; ; attempt++ {
+		before := atomic.LoadInt64(&hangsNoted)
+		lines = safeExec1(ex, ops)
+		if atomic.LoadInt64(&hangsNoted) == before {
+			if attempt > 0 {
+				atomic.AddInt64(&hangRetriesCleared, 1)
+			}
+			return lines
+		}
+		if attempt == 2 {
+			return lines
+		}
+		atomic.AddInt64(&hangRetries, 1)
+		time.Sleep(time.Duration(2+3*attempt) * time.Second)
+	}
+}
+
+func safeExec1(ex Executor, ops []Op) (lines []string) {
 	defer func() {
 		if r := recover(); r != nil {
 			lines = append(lines, fmt.Sprintf("X crash => %v", r))
